@@ -6,7 +6,7 @@ if os.path.exists('/verif/seeded/RESULTS.tsv'):
     for l in open('/verif/seeded/RESULTS.tsv'):
         f = l.rstrip('\n').split('\t')
         if len(f) >= 6:
-            res[f[0]] = (f[2], f[4], f[5].replace('class=', ''))
+            res.setdefault(f[0], []).append((f[2], f[4], f[5].replace('class=', '')))
 rows = []
 for d in sorted(glob.glob('/verif/seeded/*/meta.json')):
     sid = os.path.basename(os.path.dirname(d))
@@ -15,9 +15,9 @@ for d in sorted(glob.glob('/verif/seeded/*/meta.json')):
     need = re.sub(r'\s+', ' ', m.get('needs', '')).replace('|', '/')
     if len(summ) > 230: summ = summ[:227] + '...'
     if len(need) > 230: need = need[:227] + '...'
-    chk, out, cls = res.get(sid, (m.get('property', '?'), 'not run', ''))
-    rows.append(f"| {sid} | {summ} | {need} | {chk}: {out}{' `'+cls+'`' if cls else ''} |")
-table = "| id | what it changes | needs | own property's check, quick tier |\n|----|-----------------|-------|------------------------|\n" + "\n".join(rows)
+    outs = "; ".join(f"{chk}: {out}{' `'+cls+'`' if cls else ''}" for chk, out, cls in res.get(sid, [(m.get('property', '?'), 'not run', '')]))
+    rows.append(f"| {sid} | {summ} | {need} | {outs} |")
+table = "| id | what it changes | needs | check: outcome (quick tier) |\n|----|-----------------|-------|------------------------|\n" + "\n".join(rows)
 p = '/verif/DESIGN.md'
 s = open(p).read()
 a, b = '<!-- SEEDED-TABLE-BEGIN -->', '<!-- SEEDED-TABLE-END -->'
